@@ -704,4 +704,30 @@ def readUnaligned : Rd Int := do
   let _ ← readSaveInfo
   readInt
 
+/-! ### the run set-up at the end of `_info` (repair of audit 2-C GAP 1-4) -/
+
+/-- what `collect_reads` appends to `_info` for a restart: `len(sample.file_list)` and `args.read_group` (the EFFECTIVE
+    grouping mode of the experiment: `set_data_dependent_options` has already turned `None` into `file_name` when an
+    experiment of the invocation has several files) -/
+structure SavedSetup where
+  fileCount : Int
+  readGroup : Option String
+  deriving DecidableEq, Repr
+
+/-- `write_int(len(sample.file_list), info_dumper); write_string_or_none(self.args.read_group, info_dumper)` -/
+def writeSetup (s : SavedSetup) : Option Bytes := seqW [writeInt s.fileCount, writeStringOrNone s.readGroup]
+
+/-- the `_info` file as `collect_reads` writes it now, line by line -/
+def writeInfoFileSetup (i : SaveInfo) (unaligned : Int) (s : SavedSetup) : Option Bytes := seqW [
+  writeInt i.totalAssignments, writeInt i.polyaAssignments, writeList i.readGroups writeString,
+  writeInt unaligned, writeInt s.fileCount, writeStringOrNone s.readGroup]
+
+/-- `load_run_setup` up to its `return`: skips the four older fields, then `read_int`, `read_string_or_none`
+    (at the end of an older file: 0 and the empty string - `inf.read` returns `b""`) -/
+def readSetup : Rd SavedSetup := do
+  let _ ← readUnaligned
+  let n ← readInt
+  let g ← readStringOrNone
+  pure { fileCount := n, readGroup := g }
+
 end IsoVerif.Model.Serial
